@@ -14,8 +14,14 @@ package router
 //@ ensures result != nil && result.Id == sqe.Id && result.Error == nil
 //@ ensures result.Completion != nil && result.Completion.Kind == t_aio.Router && result.Completion.Router != nil
 //@ ensures result.Completion.Router.Matched ==> result.Completion.Router.Recv != nil
+// the sources are applied in succession and the first match wins (C08, C19: a promise that any source routes gets
+// its task): the search stops early only after a source has matched - a source that does not match hands over
+// to the next one
+//@ site loop 1 exit assert [C08 C19] itercalls("source") == 1 && iterres("source", 1)
+//@ site loop 1 return assert [C08 C19] itercalls("source") == 1 && iterres("source", 1)
 
 //@ func TagSource$1
+//@ records source
 //@ props C19 C08
 //@ nopanic C13
 // a JSON tag routes only if it is exactly a receiver object: it is decoded strictly (unknown fields refused), so
